@@ -428,6 +428,25 @@ for _mf in sorted(_glob.glob(_os.path.join(_HERE, "seeded", "*", "meta.json"))):
     MUTANTS.append(m("seed-" + _meta["id"], _prop, _rules[0].split(".")[0] if False else _rules[0],
                      [("@patch", _os.path.join(_os.path.dirname(_mf), "patch.diff"), "")], _meta.get("change", "")[:120], any_rule=True))
 
+# Broken variants of stored behaviour-preserving patches (mutpatches/<id>.diff = the neutral patch with one detail made wrong):
+# they check that the normalisation passes which make the correct variant transparent (guards with a dismiss flag, memos,
+# validated caches, result structs, pointer-to-member helpers) do not also hide the incorrect one.  Where the honest answer
+# is "not decided" the mutant must at least stop the check (exit 2, expect_broken).
+_MP = _os.path.join(_HERE, "mutpatches")
+for _id, _prop, _rule, _desc, _eb in [
+    ("c15-cache-suffix", "C15", "R15.1", "validated path cache (C16g/1) composes <name><ext>.tmp", False),
+    ("c15-cache-weak-test", "C15", "R15.1", "validated path cache (C16g/1) whose skip test does not compare the extension", True),
+    ("c18-memo-no-invalidation", "C18", "R18.1", "BlockIndexMap memo (C18g/2) that set() does not invalidate", True),
+    ("c19-memo-not-reset", "C19", "R19.2", "ip-address lookup memo (C12g/3) that CdnsBlock::operator= does not reset", False),
+    ("c16-guard-armed-early", "C16", "R16.6", "BlockClearGuard (C12g/2) armed before the write it guards", False),
+    ("c16-guard-armed-early-c12", "C12", "R12.4", "BlockClearGuard (C12g/2) armed before the write it guards", False),
+    ("c11-lookup-always-found", "C11", "R11.3", "BlockTable::lookup result struct (C19g/4) reports found for a missing key", False),
+    ("c12-wrong-member-pointer", "C12", "R12.1", "buffer_item(&CdnsBlock::add_*) (C12g/1) flushes when the block is NOT full", False),
+]:
+    _pf = _os.path.join(_MP, _id.replace("-c12", "") + ".diff")
+    if _os.path.exists(_pf):
+        MUTANTS.append(m(_id, _prop, _rule, [("@patch", _pf, "")], _desc, expect_broken=_eb, any_rule=True))
+
 # refactorings for which the analysis answers *unrecognised* (documented in DESIGN 11.12): not run as neutral edits
 NEUTRAL_UNRECOGNISED = {
     # a one-entry memo of the encoded string head kept as *bytes* (memcpy out of the staging buffer and back): that the bytes
